@@ -1,6 +1,7 @@
 package main
 
 import (
+	"regexp"
 	"fmt"
 	"go/ast"
 	"go/token"
@@ -519,6 +520,83 @@ func ruleV5(c *Ctx) {
 	c.check(nStates >= 15, "V5", "states", token.NoPos, fmt.Sprintf("%d advance-on-suspend states, %d transitions from them inspected (frozen minimum 15 states)", nStates, nTrans))
 }
 
+
+// V7: saved-end pairing. A "blank after X" state closes the span of X, when the value ends there, at an end that was
+// saved before the blanks (X.Extend(obj.cell)). The cell read when leaving such a state must be the one every entry to
+// the state wrote: reading the sibling cell (the name end in the after-value state) closes Params and V at a stale
+// position, so the tag or the last parameter value falls outside the value.
+var savedCellArg = regexp.MustCompile(`^\+[A-Za-z_]\w*\.(?:\w+\.)*(\w+)$`)
+
+func ruleV7(c *Ctx) {
+	n := 0
+	for _, fn := range []string{"ParseNameAddrPVal", "ParseCSeqVal", "ParseCallIDVal", "ParseUIntVal", "ParseTokenParam", "ParseURI"} {
+		r := fsmOf(c, fn)
+		if r == nil || r.head == nil || r.capped {
+			c.fail("V7", fn+":fsm", token.NoPos, "state machine could not be extracted")
+			continue
+		}
+		all := append(r.grouped(r.trans), r.grouped(r.post)...)
+		type use struct {
+			st   int64
+			cell string
+		}
+		uses := map[use]token.Pos{}
+		for _, t := range all {
+			for _, cl := range t.Calls {
+				op := strings.Index(cl, "(")
+				if op < 0 || !strings.HasSuffix(cl, ")") || !(strings.HasSuffix(cl[:op], ".Extend") || strings.HasSuffix(cl[:op], ".Set")) {
+					continue
+				}
+				for _, a := range strings.Split(cl[op+1:len(cl)-1], ",") {
+					if m := savedCellArg.FindStringSubmatch(strings.TrimSpace(a)); m != nil && m[1] != "Offs" && m[1] != "Len" {
+						pos := t.AtPos
+						if !pos.IsValid() {
+							pos = t.RetPos
+						}
+						uses[use{t.From, m[1]}] = pos
+					}
+				}
+			}
+		}
+		var us []use
+		for u := range uses {
+			us = append(us, u)
+		}
+		sort.Slice(us, func(i, j int) bool {
+			if us[i].st != us[j].st {
+				return us[i].st < us[j].st
+			}
+			return us[i].cell < us[j].cell
+		})
+		for _, u := range us {
+			var bad []string
+			entries := 0
+			for _, t := range all {
+				if t.To != u.st || t.From == u.st {
+					continue
+				}
+				entries++
+				wrote := false
+				for _, sto := range t.Stores {
+					if eq := strings.Index(sto, "="); eq > 0 && (sto[:eq] == u.cell || strings.HasSuffix(sto[:eq], "."+u.cell)) {
+						wrote = true
+					}
+				}
+				if !wrote {
+					bad = append(bad, r.name(t.From)+" on "+t.Bytes.String())
+				}
+			}
+			sort.Strings(bad)
+			if len(bad) > 3 {
+				bad = bad[:3]
+			}
+			n++
+			c.check(len(bad) == 0 && entries > 0, "V7", fn+":"+r.name(u.st)+":"+u.cell, uses[u], fmt.Sprintf("state %s closes a span at the saved end %s; each of the %d transitions entering the state stores that cell (entries that do not: %v)", r.name(u.st), u.cell, entries, bad))
+		}
+	}
+	c.check(n >= 4, "V7", "instances", token.NoPos, fmt.Sprintf("%d (state, saved end) pairs (frozen minimum 4)", n))
+}
+
 // V1: framing views (shared with C06).
 func ruleV1(c *Ctx) {
 	t := &Ctx{Prog: c.Prog, Prop: c.Prop}
@@ -560,6 +638,7 @@ func init() {
 			{"V4", "a running per-header extent (LastHVal of the Contact / P-Asserted-Identity lists: restarted from the element just parsed, extended otherwise, copied into Hdr.Val) restarts under a test of the header counter that the header-line parser advances on a new header, so the value of a repeated header never spans back to the previous header of that type", ruleV4},
 			{"V6", "every completion path of ParseAllContactValues / ParseAllPAIValues (verdict 0 or more-values) passes the restart-or-extend of LastHVal before the next value / the return (SSA must-pass), so Hdr.Val of the header always covers the value just completed", ruleV6},
 			{"V5", "trimming survives a suspension: in every state of the 5 extracted automata that a more-bytes exit persists together with an offset already advanced by the whitespace skipper, no transition taken on a whitespace byte or at buffer end closes a span at the bare scan index (Extend(i) / Set(a,i) / *end=i) — after a resume the index is past the trailing blanks and they would become part of the value", ruleV5},
+			{"V7", "saved-end pairing in the extracted automata: a state that closes a span at an end saved in the object before trailing blanks (X.Extend(obj.cell) / X.Set(a, obj.cell)) reads the cell that every transition entering the state stored, not a sibling saved end", ruleV7},
 			{"V3", "nesting by sibling agreement on the completing exits of the extracted automata: an exit that extends Params (or closes the URI) extends the whole value V to the same end; the tag is the parameter value span; the CSeq number starts V and the method ends it", ruleV3},
 		},
 		Assumptions: []string{"field end arguments are positions <= len(buf) (C04-P2)"},
